@@ -185,3 +185,85 @@ Theorem C10_mat_inv_rejects :
          mat_inv modulo n M cand = Err AssertionErr.
 Proof. exact @mat_inv_rejects. Qed.
 Print Assumptions C10_mat_inv_rejects.
+
+From V Require Import Base W64 Perm Matrix Def DefRun IntInverse IntInverseProofs.
+
+(* the exact fallback of MatrixGenerator.inv (Gauss-Jordan over the rationals, modelled step by step): whatever it returns is the two-sided integer inverse *)
+Theorem C10_integer_inverse_sound :
+  forall (n : nat) (M R : list (list BinNums.Z)),
+         square n M ->
+         integer_inverse n M = Some R ->
+         square n R /\
+         (forall i k : nat,
+          i < n -> k < n -> BinInt.Z.lt (BinInt.Z.abs (DefProofs.mentry R i k)) two63) /\
+         zmat_mul n M R = eye n /\ zmat_mul n R M = eye n.
+Proof. exact @integer_inverse_sound. Qed.
+Print Assumptions C10_integer_inverse_sound.
+
+(* and it finds the inverse of EVERY square integer matrix that has an integer inverse with int64 entries *)
+Theorem C10_integer_inverse_complete :
+  forall (n : nat) (M R : list (list BinNums.Z)),
+         square n M ->
+         square n R ->
+         (forall i k : nat,
+          i < n -> k < n -> BinInt.Z.lt (BinInt.Z.abs (DefProofs.mentry R i k)) two63) ->
+         zmat_mul n M R = eye n -> integer_inverse n M = Some R.
+Proof. exact @integer_inverse_complete. Qed.
+Print Assumptions C10_integer_inverse_complete.
+
+(* exact characterisation *)
+Theorem C10_integer_inverse_spec :
+  forall (n : nat) (M R : list (list BinNums.Z)),
+         square n M ->
+         integer_inverse n M = Some R <->
+         square n R /\
+         (forall i k : nat,
+          i < n -> k < n -> BinInt.Z.lt (BinInt.Z.abs (DefProofs.mentry R i k)) two63) /\
+         zmat_mul n M R = eye n.
+Proof. exact @integer_inverse_spec. Qed.
+Print Assumptions C10_integer_inverse_spec.
+
+(* COMPLETENESS of MatrixGenerator.inv: for every integer matrix with an integer inverse and ANY floating-point candidate, inv succeeds and returns a two-sided inverse (no assumption on LAPACK) *)
+Theorem C10_mat_inv_fb_integer_inverse :
+  forall (n : nat) (M R cand : list (list BinNums.Z)),
+         square n M ->
+         square n R ->
+         (forall i k : nat,
+          i < n -> k < n -> BinInt.Z.lt (BinInt.Z.abs (DefProofs.mentry R i k)) two63) ->
+         zmat_mul n M R = eye n ->
+         exists R' : list (list BinNums.Z),
+           mat_inv_fb BinNums.Z0 n M cand (integer_inverse n M) = Ok R' /\
+           (R' = cand \/ R' = R) /\
+           mat_mul BinNums.Z0 n M R' = eye n /\
+           mat_mul BinNums.Z0 n R' M = eye n /\ is_inverse_to BinNums.Z0 n M R' = true.
+Proof. exact @mat_inv_fb_integer_inverse. Qed.
+Print Assumptions C10_mat_inv_fb_integer_inverse.
+
+(* whatever inv returns passed the product check *)
+Theorem C10_mat_inv_fb_some :
+  forall (modulo : BinNums.Z) (n : nat) (M cand : list (list BinNums.Z))
+           (exact : option (list (list BinNums.Z))) (M' : list (list BinNums.Z)),
+         mat_inv_fb modulo n M cand exact = Ok M' ->
+         exists c : list (list BinNums.Z), mat_inv modulo n M c = Ok M'.
+Proof. exact @mat_inv_fb_some. Qed.
+Print Assumptions C10_mat_inv_fb_some.
+
+(* what the differential check of the fallback means *)
+Theorem C10_check_integer_inverse_meaning :
+  forall (M : list (list BinNums.Z)) (r : option (list (list BinNums.Z))),
+         square (length M) M ->
+         check_integer_inverse (M, r) = true ->
+         match r with
+         | Some R =>
+             square (length M) R /\
+             zmat_mul (length M) M R = eye (length M) /\ zmat_mul (length M) R M = eye (length M)
+         | None =>
+             forall R : list (list BinNums.Z),
+             square (length M) R ->
+             (forall i k : nat,
+              i < length M ->
+              k < length M -> BinInt.Z.lt (BinInt.Z.abs (DefProofs.mentry R i k)) two63) ->
+             zmat_mul (length M) M R <> eye (length M)
+         end.
+Proof. exact @check_integer_inverse_meaning. Qed.
+Print Assumptions C10_check_integer_inverse_meaning.
